@@ -13,6 +13,17 @@ PROFILE = "c09"
 
 
 def run(ctx):
+    # the operator table of the pre_dispatch expression evaluator is regenerated from the source before the proofs
+    import gen_c09
+    import translate
+    try:
+        _, changed = gen_c09.generate()
+        if changed:
+            ctx.note("Gen/T_operators.v changed: the `operators` table of joblib/_utils.py differs from the last run")
+    except translate.TranslateError as e:
+        ctx.note("translator rejected joblib/_utils.py (%s): the last translation is kept for the proofs" % e)
+        ctx.violation("the `operators` table of joblib/_utils.py could not be translated: %s" % e,
+                      {"kind": "translation", "translation": "harness/gen_c09.py -> Gen/T_operators.v"}, False)
     m1.standard_run(ctx, PROP, PROFILE)
 
 
